@@ -354,7 +354,6 @@ def reachable_funcs(prog, func, follow_registered=False, depth=6):
     return seen
 
 
-__all__ = [n for n in dir() if not n.startswith("_")]
 
 
 def call_edges(ctx, f):
@@ -983,7 +982,7 @@ def result_stored(cfg, n, call, attr):
         v = node_assign_value(sn, attr)
         if v is not None and not is_none_const(v):
             og = deferred_origins(cfg, sn.id, v) or []
-            if len(og) == 1 and og[0] is call and not cfg.normal_exits_from(n.id, avoid=[sn.id]):
+            if any(o is call for o in og) and not cfg.normal_exits_from(n.id, avoid=[sn.id]):
                 return True
     return False
 
@@ -1268,9 +1267,15 @@ def concrete_values(cfg, target_id, expr, env0, max_states=4000):
                     else:
                         env.pop(t.id, None)
                 elif isinstance(t, (ast.Tuple, ast.List)):
-                    for e_ in t.elts:
+                    rhs = st.value if isinstance(st, ast.Assign) and isinstance(st.value, (ast.Tuple, ast.List)) and len(
+                        st.value.elts) == len(t.elts) else None
+                    vals_ = [ev(x_, env) for x_ in rhs.elts] if rhs is not None else [None] * len(t.elts)  # right-hand sides first
+                    for e_, v in zip(t.elts, vals_):
                         if isinstance(e_, ast.Name):
-                            env.pop(e_.id, None)
+                            if isinstance(v, (int, bool)):
+                                env[e_.id] = v
+                            else:
+                                env.pop(e_.id, None)
         elif n.kind in ("for", "with"):
             for nm in node_local_writes(n):
                 env.pop(nm, None)
@@ -1322,3 +1327,263 @@ def origin_text(cfg, nid, expr, params, _depth=0):
             return node
 
     return norm(T().visit(copy.deepcopy(expr)), 400)
+
+
+__all__ = [n for n in dir() if not n.startswith("_")]
+
+
+def table_loop(ctx, func, loop_node):
+    """Normal form of a `for` over a mapping: dict(table, mode, copy, ordered, key, val) or None.
+    `for v in list(T.values())`, `for k, v in T.items()`, `for k in T` / `list(T)` / `T.keys()`, with T resolved through
+    aliases (`t = self.requests; for ... in list(t.items())`).  copy: the iteration runs over a snapshot (list/tuple/
+    .copy()); ordered: the snapshot keeps the mapping's own order (no sorted/reversed/set)."""
+    st = loop_node.stmt
+    if not isinstance(st, ast.For):
+        return None
+    cfg_ = ctx.cfg(func)
+    nid_ = [loop_node.id]
+
+    def follow(e):
+        # a local bound once to the thing iterated (`snapshot = list(t.values()); for x in snapshot`)
+        for _ in range(4):
+            e = at(ctx, func, nid_[0], e)
+            if not isinstance(e, ast.Name):
+                break
+            og = value_origins(cfg_, nid_[0], e, params=func.params)
+            if not og or len(og) != 1 or og[0][1] is e or (isinstance(og[0][1], ast.Name) and og[0][1].id == e.id):
+                break
+            nid_[0], e = og[0]
+        return e
+
+    it = follow(st.iter)
+    copy = False
+    ordered = True
+    while True:
+        it = follow(it)
+        if isinstance(it, ast.Call) and isinstance(it.func, ast.Name) and len(it.args) == 1 and not it.keywords:
+            if it.func.id in ("list", "tuple"):
+                copy = True
+                it = it.args[0]
+                continue
+            if it.func.id in ("sorted", "reversed", "set", "frozenset"):
+                copy = True
+                ordered = False
+                it = it.args[0]
+                continue
+            if it.func.id == "iter":
+                it = it.args[0]
+                continue
+        break
+    mode = "keys"
+    if isinstance(it, ast.Call) and isinstance(it.func, ast.Attribute) and it.func.attr in ("values", "items", "keys") and not it.args:
+        mode = it.func.attr
+        it = follow(it.func.value)
+    if isinstance(it, ast.Call) and isinstance(it.func, ast.Attribute) and it.func.attr == "copy" and not it.args:
+        copy = True
+        it = follow(it.func.value)
+    if not isinstance(it, (ast.Attribute, ast.Name)):
+        return None
+    key = val = None
+    tg = st.target
+    if mode == "values" and isinstance(tg, ast.Name):
+        val = tg.id
+    elif mode == "keys" and isinstance(tg, ast.Name):
+        key = tg.id
+    elif mode == "items" and isinstance(tg, ast.Tuple) and len(tg.elts) == 2 and all(isinstance(e, ast.Name) for e in tg.elts):
+        key, val = tg.elts[0].id, tg.elts[1].id
+    else:
+        return None
+    return {"table": unparse(it), "mode": mode, "copy": copy, "ordered": ordered, "key": key, "val": val}
+
+
+def table_deletes(ctx, func, cfg, table):
+    """Nodes that remove one entry of the mapping `table` (`del T[k]`, `T.pop(k...)`), T resolved through aliases:
+    [(node, key expr)]."""
+    out = []
+    for n in cfg.nodes:
+        if n.kind == "stmt" and isinstance(n.stmt, ast.Delete):
+            for t in n.stmt.targets:
+                if isinstance(t, ast.Subscript) and unparse(at(ctx, func, n.id, t.value)) == table:
+                    out.append((n, t.slice))
+        for c in n.calls():
+            if call_name(c) == "pop" and isinstance(c.func, ast.Attribute) and c.args and unparse(at(ctx, func, n.id, c.func.value)) == table:
+                out.append((n, c.args[0]))
+    return out
+
+
+def slice_bounds(prog, func, sub):
+    """(lower, upper) integer bounds of a subscript that takes a constant slice, else None: `x[4:8]`, bounds through
+    constants, or a slice object named by a constant (`_ID = slice(4, 8); x[_ID]`).  A missing lower bound is 0."""
+    sl = sub.slice
+    if not isinstance(sl, ast.Slice):
+        e = expand(prog, func, sl)
+        if isinstance(e, ast.Name) and isinstance(module_const(func, e.id), ast.Call):
+            e = module_const(func, e.id)
+        if isinstance(e, ast.Call) and isinstance(e.func, ast.Name) and e.func.id == "slice" and not e.keywords and 1 <= len(e.args) <= 2:
+            lo, hi = (ast.Constant(value=0), e.args[0]) if len(e.args) == 1 else (e.args[0], e.args[1])
+            if isinstance(lo, ast.Constant) and lo.value is None:
+                lo = ast.Constant(value=0)
+        else:
+            return None
+    else:
+        if sl.step is not None:
+            return None
+        lo, hi = sl.lower or ast.Constant(value=0), sl.upper
+    if hi is None:
+        return None
+    a, b = const_value(prog, func, lo), const_value(prog, func, hi)
+    if isinstance(a, int) and isinstance(b, int):
+        return a, b
+    return None
+
+
+def tri_eval(test, leaf, env=None):
+    """Three-valued evaluation of a condition: `leaf(expr)` decides the atoms it knows (True/False) and returns None for
+    the rest; constants, boolean locals in `env`, not/and/or, and comparisons of a decided atom with None compose."""
+    env = env or {}
+    if isinstance(test, ast.Constant) and isinstance(test.value, bool):
+        return test.value
+    if isinstance(test, ast.Name) and test.id in env:
+        return env[test.id]
+    v = leaf(test)
+    if v is not None:
+        return v
+    if isinstance(test, ast.UnaryOp) and isinstance(test.op, ast.Not):
+        v = tri_eval(test.operand, leaf, env)
+        return None if v is None else (not v)
+    if isinstance(test, ast.BoolOp):
+        vals = [tri_eval(x, leaf, env) for x in test.values]
+        if isinstance(test.op, ast.And):
+            if any(x is False for x in vals):
+                return False
+            return True if all(x is True for x in vals) else None
+        if any(x is True for x in vals):
+            return True
+        return False if all(x is False for x in vals) else None
+    if isinstance(test, ast.Call) and isinstance(test.func, ast.Name) and test.func.id == "bool" and len(test.args) == 1:
+        return tri_eval(test.args[0], leaf, env)
+    return None
+
+
+def handler_for(prog, cfg, try_stmt, cls, anc):
+    """The `except` node of `try_stmt` that catches an exception of class `cls` (first match in source order)."""
+    for h in try_stmt.handlers:
+        names = ["BaseException"] if h.type is None else [unparse(e).split(".")[-1] for e in (h.type.elts if isinstance(h.type, ast.Tuple) else [h.type])]
+        ex = []
+        for nm in names:
+            c = None
+            f_ = cfg.func
+            e_ = expand(prog, f_, ast.Name(id=nm, ctx=ast.Load())) if nm.isidentifier() else None
+            if isinstance(e_, (ast.Tuple, ast.List)):
+                ex += [unparse(x).split(".")[-1] for x in e_.elts]
+            else:
+                ex.append(nm)
+        if any(nm in anc.get(cls, {cls}) or nm in ("Exception", "BaseException") for nm in ex):
+            ns = [n for n in cfg.nodes if n.kind == "except" and n.stmt is h]
+            return ns[0] if ns else None
+    return None
+
+
+def leaf_origins(cfg, nid, expr, params=(), _depth=0):
+    """The attribute chains / constants / parameters / globals the value of `expr` at node nid is computed from, locals
+    followed through ALL their reaching definitions (a local assigned in several arms contributes every arm): a set of
+    texts, or None when some definition cannot be followed."""
+    if _depth > 8:
+        return None
+    out = set()
+    if isinstance(expr, ast.Name):
+        og = value_origins(cfg, nid, expr, params=params)
+        if og is None:
+            return None
+        for n_, e in og:
+            if isinstance(e, ast.Name):
+                out.add("<param:%s>" % e.id if (n_ == cfg.entry.id and e.id in params) else e.id)
+            else:
+                sub = leaf_origins(cfg, n_, e, params, _depth + 1)
+                if sub is None:
+                    return None
+                out |= sub
+        return out
+    if isinstance(expr, ast.Constant):
+        return {repr(expr.value)}
+    if isinstance(expr, ast.Attribute):
+        return {unparse(expr)}
+    if isinstance(expr, (ast.BinOp, ast.UnaryOp, ast.BoolOp, ast.IfExp, ast.Compare, ast.Tuple)):
+        for ch in ast.iter_child_nodes(expr):
+            if isinstance(ch, (ast.operator, ast.unaryop, ast.boolop, ast.cmpop, ast.expr_context)):
+                continue
+            sub = leaf_origins(cfg, nid, ch, params, _depth)
+            if sub is None:
+                return None
+            out |= sub
+        return out
+    if isinstance(expr, ast.Call) and isinstance(expr.func, ast.Name) and expr.func.id in ("min", "max", "float", "int", "abs") and not expr.keywords:
+        for a in expr.args:
+            sub = leaf_origins(cfg, nid, a, params, _depth)
+            if sub is None:
+                return None
+            out |= sub
+        return out
+    return {unparse(expr)}
+
+
+def nodes_reached_with(cfg, env):
+    """CFG node ids reachable from the entry when the locals in `env` (name -> int/bool/str constant) have those values
+    and are not reassigned: tests that mention only those names are decided, every other test goes both ways."""
+    names = set(env)
+    rebinds = {n_.id for n_ in cfg.nodes if names & set(node_local_writes(n_))}
+    seen = set()
+    stack = [cfg.entry.id]
+    while stack:
+        x = stack.pop()
+        if x in seen:
+            continue
+        seen.add(x)
+        n = cfg.nodes[x]
+        verdict = None
+        if n.kind == "test" and not rebinds:
+            t = n.stmt.test
+            used = {y.id for y in ast.walk(t) if isinstance(y, ast.Name)}
+            if used and used <= names and not any(isinstance(y, (ast.Call, ast.Attribute, ast.Subscript)) for y in ast.walk(t)):
+                try:
+                    verdict = bool(eval(compile(ast.Expression(body=t), "<cond>", "eval"), {"__builtins__": {}}, dict(env)))
+                except Exception:  # noqa: BLE001
+                    verdict = None
+        for t_, lab in cfg.succ[x]:
+            if lab == ("exc",):
+                continue
+            if verdict is not None and lab and lab[0] == "cond" and lab[2] != verdict:
+                continue
+            stack.append(t_)
+    return seen
+
+
+def value_cases(ctx, func, node, expr):
+    """[(facts, value expr)]: the value of `expr` at `node` case by case - a conditional expression is split into its
+    arms, each with the guard facts of the node plus what the arm's test outcome implies."""
+    from ..cfg import cond_atoms
+    base = frozenset(ctx.facts(func)[node.id])
+    out = []
+
+    def split(e, extra):
+        if isinstance(e, ast.IfExp):
+            split(e.body, extra | cond_atoms(at(ctx, func, node.id, e.test), True) | cond_atoms(e.test, True))
+            split(e.orelse, extra | cond_atoms(at(ctx, func, node.id, e.test), False) | cond_atoms(e.test, False))
+        else:
+            out.append((base | extra, e))
+    split(expr, frozenset())
+    return out
+
+
+def return_cases(ctx, func):
+    """[(node, facts, value expr)] for every value the function can return (conditional expressions split)."""
+    cf = ctx.cfg(func)
+    out = []
+    for n in cf.nodes:
+        if n.kind == "stmt" and isinstance(n.stmt, ast.Return) and n.stmt.value is not None:
+            for f_, e in value_cases(ctx, func, n, n.stmt.value):
+                out.append((n, f_, e))
+    return out
+
+
+__all__ = [n for n in dir() if not n.startswith("_")]
